@@ -26,6 +26,14 @@ type KeyS string
 // NamedInt is a named integer type.
 type NamedInt int
 
+// Named primitive types of the other kinds.
+type (
+	NamedBool  bool
+	NamedFloat float32
+	NamedUint  uint16
+	NamedDur   time.Duration
+)
+
 // Init has defaults.
 type Init struct {
 	A int `config:"a"`
@@ -51,6 +59,7 @@ var baseTypes = []reflect.Type{
 	reflect.TypeOf(time.Duration(0)), reflect.TypeOf((*interface{})(nil)).Elem(), reflect.TypeOf(KeyS("")), reflect.TypeOf(NamedInt(0)),
 	reflect.TypeOf((*ucfg.Config)(nil)), reflect.TypeOf(ucfg.Config{}), reflect.TypeOf(regexp.Regexp{}), reflect.TypeOf(Init{}), reflect.TypeOf(Val{}),
 	reflect.TypeOf(make(chan int)), reflect.TypeOf(func() {}), reflect.TypeOf(complex64(0)), reflect.TypeOf(int64(0)), reflect.TypeOf(uint64(0)),
+	reflect.TypeOf(NamedBool(false)), reflect.TypeOf(NamedFloat(0)), reflect.TypeOf(NamedUint(0)), reflect.TypeOf(NamedDur(0)),
 }
 
 var keyTypes = []reflect.Type{reflect.TypeOf(""), reflect.TypeOf(""), reflect.TypeOf(KeyS("")), reflect.TypeOf(int(0)), reflect.TypeOf((*interface{})(nil)).Elem()}
@@ -106,8 +115,10 @@ func fill(r *sim.R, v reflect.Value, depth int) {
 		v.SetInt(int64([]int{5, -5, 13}[t.Choose(3, "int-default")]))
 	case reflect.Uint8, reflect.Uint64:
 		v.SetUint(5)
-	case reflect.Float64:
+	case reflect.Float64, reflect.Float32:
 		v.SetFloat(5.5)
+	case reflect.Uint16:
+		v.SetUint(5)
 	case reflect.String:
 		v.SetString("old")
 	case reflect.Bool:
@@ -232,7 +243,7 @@ func inputFor(r *sim.R, ty reflect.Type, depth int) interface{} {
 		return []interface{}{"new", "", "3s"}[t.Choose(3, "string-input")]
 	case reflect.Bool:
 		return t.Bool("bool-input")
-	case reflect.Float64:
+	case reflect.Float64, reflect.Float32:
 		return 2.5
 	case reflect.Int64:
 		if ty == reflect.TypeOf(time.Duration(0)) {
